@@ -1,11 +1,11 @@
 //! C20 — meta-variable syntax is uniform across languages; small notations are exact.
-//! (a) every `$`^k·name spelling (k<=3, name <= 3 symbols over {A,a,1,_}) alone and inside a
+//! (a) every `$`^k·name spelling (k<=3, name <= 3 symbols over {A,Z,a,1,0,9,_}) alone and inside a
 //!     carrier pattern, in all 23 languages, vs ref_metavar;
 //! (b) every An+B string <= 6 symbols (+ long digit runs) through the real nthChild rule on a
 //!     12-element sibling list (and reversed), vs ref_anb;
 //! (c) substring on every text <= 4 chars over {a, é, 🦀} x start/end in -6..6|absent through
 //!     the real transform path, vs Python slice semantics;
-//! (d) every fix template <= 6 symbols over {$, A, b, 1, _, space}: used_vars and output vs
+//! (d) every fix template <= 6 symbols over {$, A, Z, b, 1, 9, _, space}: used_vars and output vs
 //!     ref_template.
 
 use ast_grep_config::{from_str, DeserializeEnv, SerializableRuleCore};
@@ -104,13 +104,14 @@ fn carrier(lang: &str) -> (&'static str, &'static str) {
 }
 
 fn spellings() -> Vec<String> {
-  let names = ["A", "a", "1", "_"];
+  // (the first and last member of every character range of the name grammar: A Z, 0 9)
+  let names = ["A", "Z", "a", "1", "0", "9", "_"];
   let mut out = vec![];
   for k in 0..=3 {
     let sig = "$".repeat(k);
     out.push(sig.clone());
-    for i in 0..gen::count(4, 3) {
-      let seq = gen::nth_tokens(4, 3, i);
+    for i in 0..gen::count(names.len(), 3) {
+      let seq = gen::nth_tokens(names.len(), 3, i);
       let name: String = seq.iter().map(|&t| names[t]).collect();
       out.push(format!("{sig}{name}"));
     }
@@ -410,7 +411,7 @@ fn ref_template(t: &str) -> (bool, BTreeSet<String>, String) {
 }
 
 fn part_d(rep: &Reporter, st: &Stats, thorough: bool) {
-  let syms = ["$", "A", "b", "1", "_", " "];
+  let syms = ["$", "A", "Z", "b", "1", "9", "_", " "];
   let max = if thorough { 7 } else { 6 };
   let total = gen::count(syms.len(), max);
   for lang in [SupportLang::JavaScript, SupportLang::Python] {
@@ -471,7 +472,7 @@ fn main() {
   let cov = json!({
     "evaluations": g(&st.a_evals) + g(&st.b_evals) + g(&st.c_evals) + g(&st.d_templates),
     "distinct_nontrivial": g(&st.a_holes_recognised) + g(&st.b_accepted_ref) + g(&st.c_nonempty) + g(&st.d_with_var),
-    "rule": "(a) all spellings $^k name, k<=3, name <= 3 symbols over {A,a,1,_}, alone and in a per-language carrier, 23 languages; (b) all An+B strings <= 5 (thorough 6) symbols over {n,N,+,-,0,1,2,9,space} plus long digit runs, x 12 sibling indices x reverse; (c) all texts <= 4 chars over {a,é,crab} x 14x14 start/end pairs; (d) all templates <= 6 (thorough 7) symbols over {$,A,b,1,_,space} in 2 languages. distinct_nontrivial = spellings recognised as exactly one hole + formulas the reference grammar accepts + substring cases with a non-empty expected slice + judged templates containing a variable",
+    "rule": "(a) all spellings $^k name, k<=3, name <= 3 symbols over {A,Z,a,1,0,9,_}, alone and in a per-language carrier, 23 languages; (b) all An+B strings <= 5 (thorough 6) symbols over {n,N,+,-,0,1,2,9,space} plus long digit runs, x 12 sibling indices x reverse; (c) all texts <= 4 chars over {a,é,crab} x 14x14 start/end pairs; (d) all templates <= 6 (thorough 7) symbols over {$,A,Z,b,1,9,_,space} in 2 languages. distinct_nontrivial = spellings recognised as exactly one hole + formulas the reference grammar accepts + substring cases with a non-empty expected slice + judged templates containing a variable",
     "samples": [
       {"part": "a", "lang": "python", "pattern": "f($$A1)", "expect": "any-node capture A1"},
       {"part": "b", "nthChild": "-2n+9", "selects_indices": [1, 3, 5, 7, 9]},
